@@ -542,7 +542,7 @@ def check_mediation(ctx, rep, rule61="R06.1", rule62="R06.2"):
     if gate_bad is not None:
         rep.ob(rule61, "_access_attr: hook-bearing objects get their own type-level hook, everything else passes _check_attr once and "
                "the default operation is applied to the name it returned", not gate_bad,
-               "8 scenarios evaluated (hook / no hook, switches off, bytes and non-text names, refusal)" if not gate_bad else
+               "10 scenarios evaluated (hook / no hook, switches off, bytes and non-text names, refusal)" if not gate_bad else
                "; ".join(gate_bad)[:500], fa.loc, kind="model")
 
     def sob(rule_, key_, ok_, *a_, **k_):
@@ -1159,6 +1159,8 @@ def _access_gate_model(ctx, fa):
                                               ("object with its own hook, name given as bytes", True, b"attr", False),
                                               ("plain object, the policy refuses", False, "attr", True),
                                               ("plain object, name is an int", False, 5, False),
+                                              ("plain object, name is an instance of a str subclass", False, _SubStr("attr"), False),
+                                              ("object with its own hook, name is an instance of a bytes subclass", True, _SubBytes(b"attr"), False),
                                               ("object with its own hook, name is a tuple", True, ("attr",), False)):
             log = []
 
@@ -1187,7 +1189,9 @@ def _access_gate_model(ctx, fa):
             except MI.Raised as r_:
                 got = "raises %s" % r_.name
             text = name.decode("utf8") if isinstance(name, bytes) else name
-            if not isinstance(text, str):
+            if type(name) not in (str, bytes):
+                want_log, want = [], "raises TypeError"      # exact types only: a subclass may override startswith/__eq__/__hash__
+            elif not isinstance(text, str):
                 want_log, want = [], "raises TypeError"
             elif has_hook:
                 want_log, want = [("hook", OBJ, text, ("X",))], "HOOK-RESULT" if refuse != "hook" else "raises AttributeError"
@@ -1203,6 +1207,14 @@ def _access_gate_model(ctx, fa):
     except AnalysisError:
         return None
     return bad
+
+
+class _SubStr(str):
+    pass
+
+
+class _SubBytes(bytes):
+    pass
 
 
 class _AllOff(dict):
